@@ -1270,6 +1270,27 @@ class Executor:
                 for t in ([cnd] + (cnd.children() if z3.is_and(cnd) else [])):
                     if z3.is_app(t) and t.decl().name() == "pyvc_trig" and t.arg(0).get_id() in ids:
                         trigs[t.arg(0).get_id()] = t
+            if trigs and len(trigs) < len(bound):
+                # bound variables without a trig guard: complete the multi-pattern with a 1-D array read indexed by that variable
+                for b in bound:
+                    if b.get_id() in trigs:
+                        continue
+                    found = []
+
+                    def walk(t, b=b, found=found, seen=set()):
+                        if t.get_id() in seen or found:
+                            return
+                        seen.add(t.get_id())
+                        if z3.is_app(t):
+                            if t.decl().kind() == z3.Z3_OP_SELECT and t.arg(1).get_id() == b.get_id() and z3.is_const(t.arg(0)) \
+                                    and t.arg(0).decl().kind() == z3.Z3_OP_UNINTERPRETED:
+                                found.append(t)
+                                return
+                            for ch in t.children():
+                                walk(ch)
+                    walk(body)
+                    if found:
+                        trigs[b.get_id()] = found[0]
             if trigs and len(trigs) == len(bound):
                 pat = list(trigs.values())
                 return VBool(z3.ForAll(bound, z3.Implies(rng, body), patterns=[pat[0] if len(pat) == 1 else z3.MultiPattern(*pat)]))
@@ -2002,6 +2023,8 @@ class Executor:
             cst.entry_env[nm] = cst.env[nm]
         for k, r in enumerate(callee.requires):
             g = sub.spec_bool(r, cst)
+            if not spec and callee.qualname in getattr(self.c, "options", {}).get("skip_call_requires", ()):
+                continue        # discharged by another contract of the same function (stated in its notes)
             if not spec:
                 o = self.oblige(st, "requires@call", "%s.%d@%s" % (callee.qualname, k, self.line_tag(n)), g, n,
                                 desc="precondition of %s: %s" % (callee.qualname, r), extra_hyps=cst.pc[len(st.pc):])
